@@ -258,10 +258,12 @@ def main(argv=None):
         f"exhaustive={exhaustive} wall={time.time() - t0:.0f}s",
         flush=True,
     )
+    if n_viol:
+        return 1
     if transitions == 0:
         print(f"HARNESS-ERROR property={prop} vacuous run (0 transitions)")
         return 2
-    return 1 if n_viol else 0
+    return 0
 
 
 COMMON_ASSUMPTIONS = [
